@@ -425,6 +425,32 @@ pub fn coincidence_frames() -> Vec<(u16, u8, Vec<u8>)> {
     v
 }
 
+/// Data that is almost all one value: every length 1..=40 and 248..=255, all bytes `base` (00 or FF) except ONE byte at
+/// each position in turn (set to 01 / 7F / 80 / the other base) — what a mostly blank or mostly lit page column, or a
+/// shortcut that looks at the first and last byte or at whole words only, meets.
+pub fn sparse_data() -> Vec<Vec<u8>> {
+    let mut v = vec![];
+    for len in (1usize..=40).chain(248..=255) {
+        for base in [0x00u8, 0xFF] {
+            for pos in 0..len {
+                // long chunks: the ends and a stride in the middle
+                if len > 40 && !(pos < 9 || pos + 9 >= len || pos % 37 == 0) {
+                    continue;
+                }
+                for odd in [0x01u8, 0x7F, 0x80, !base] {
+                    if odd == base {
+                        continue;
+                    }
+                    let mut d = vec![base; len];
+                    d[pos] = odd;
+                    v.push(d);
+                }
+            }
+        }
+    }
+    v
+}
+
 pub fn from_ref(m: &RefMsg) -> Message<'static> {
     match m {
         RefMsg::Data { offset, data } => Message::SendData(Offset(*offset), Data::try_new(owned_with_slack(data, usize::from(*offset))).expect("<=255")),
